@@ -166,8 +166,16 @@ pub fn is_valid_user_token(token: &String, user_name: &String, db: &Database) ->
 }
 
 pub fn set_connection_counter(db: &Database, dbs: &Arc<Databases>) -> Response {
-    let value = db.connections_count().to_string();
-    return set_key_value(CONNECTIONS_KEY.to_string(), value, -1, db, &dbs);
+    // Two sessions arriving (or leaving) together each read the counter and then write the key: the
+    // one that read first could write last and leave a stale $connections behind. Publish again
+    // until what was written is what the counter says
+    loop {
+        let count = db.connections_count();
+        let response = set_key_value(CONNECTIONS_KEY.to_string(), count.to_string(), -1, db, &dbs);
+        if db.connections_count() == count {
+            return response;
+        }
+    }
 }
 
 pub fn set_key_value(
